@@ -13,7 +13,7 @@
    checksums computed by several workers at once, mixed.  A TSan report is a concrete racy
    execution and is reported as the violation with its log. *)
 From Coq Require Import NArith List Lia.
-From Mtbl Require Import model.Bytes model.Pool props.Properties_C13.
+From Mtbl Require Import model.Bytes model.Pool proofs.PoolSched props.Properties_C13.
 (* source ties: the statements of the C functions the model follows (gen/Ties.v is regenerated from /repo on every run) *)
 From Mtbl Require props.Ties_C14.
 Local Open Scope N_scope.
